@@ -916,6 +916,22 @@ class Component(composites.Composite, metaclass=ComponentType):
         nDens = {nuc: dens for nuc, dens in zip(nuclideNames, densities)}
         return densityTools.calculateMassDensity(nDens) * volume
 
+    def getMasses(self):
+        """
+        Return a dictionary of masses indexed by their nuclide names.
+
+        Notes
+        -----
+        Like ``getMass``, this uses the volume reduced by the symmetry factor of the parent.
+        """
+        volume = self.getVolume() / (
+            self.parent.getSymmetryFactor() if self.parent else 1.0
+        )
+        return {
+            nucName: densityTools.getMassInGrams(nucName, volume, ndens)
+            for nucName, ndens in self.getNumberDensities().items()
+        }
+
     def addMass(self, nucName, mass):
         """
         Add mass to a particular nuclide.
